@@ -24,5 +24,5 @@ func (c Case) Program(name string) cat.Program {
 			data[b.Name] = vals.Str(b.Val.S)
 		}
 	}
-	return cat.Program{Name: name, Files: c.Files(), Data: data, Opts: []string{"components"}, Feat: []string{"generated-composition"}}
+	return cat.Program{Name: name, Files: c.Files(), Data: data, Opts: []string{"components"}, Store: c.Store, Feat: []string{"generated-composition"}}
 }
